@@ -49,6 +49,11 @@ func (p *Parser) Parse() (ast.Tree, error) {
 			comment := p.parseComment()
 			switch {
 			case p.next().Is(token.TASK):
+				if strings.TrimSpace(comment.Text) == "" {
+					// An empty comment documents nothing, keep it as a comment in its own right
+					tree.Append(comment)
+					comment = ast.Comment{NodeType: ast.NodeComment}
+				}
 				// The comment was a tasks' docstring
 				task, err := p.parseTask(comment)
 				if err != nil {
